@@ -49,7 +49,8 @@ def chart_text(ctype, desc, diff, meter, measures, comments=False):
     for mi, rows in enumerate(measures):
         lines = list(rows)
         if comments and mi == 0:
-            lines = ["  // measure %d" % mi] + lines[:1] + [""] + lines[1:]
+            # comment line, blank line, a line of blanks, comments after a row and after the measure separator's line
+            lines = ["  // measure %d: first; of many" % mi] + [lines[0] + "  // row 0"] + ["", "  "] + lines[1:-1] + [lines[-1] + " // last"]
         body.append("\n".join(lines))
     return "//--------- %s - %s ----------\n#NOTES:\n     %s:\n     %s:\n     %s:\n     %s:\n     0.1,0.2,0.3,0.4,0.5:\n%s\n;\n" % (
         ctype, desc, ctype, desc, diff, meter, "\n,\n".join(body))
@@ -82,7 +83,7 @@ BPM_SETS = {
 }
 
 
-def build(ctx, charts, bpm_set, stops_tag="#STOPS:;\n", selectable="YES", comments=False, title="Song"):
+def build(ctx, charts, bpm_set, stops_tag="#STOPS:;\n", selectable="YES", comments=False, title="Song", header_comment=False):
     tk = ctx.tok
     off = ctx.real("offset")
     Ls = []
@@ -95,8 +96,13 @@ def build(ctx, charts, bpm_set, stops_tag="#STOPS:;\n", selectable="YES", commen
     ss, sl = ctx.real("sstart"), ctx.real("slen")
     text = HEADER % dict(title=title, offset=tk(off), sstart=tk(ss), slen=tk(sl), selectable=selectable, bpms="\n,".join(bp), stops=stops_tag)
     for ci, (keys, pname, desc, diff, meter) in enumerate(charts):
+        ctype = TYPES[keys] if isinstance(keys, int) else keys[1]  # (columns, chart type) for types the key count does not name
+        keys = keys if isinstance(keys, int) else keys[0]
         ms = [measure_rows(keys, n, placed) for n, placed in patterns(keys)[pname]]
-        text += chart_text(TYPES[keys], desc, diff, meter, ms, comments=comments)
+        text += chart_text(ctype, desc, diff, meter, ms, comments=comments)
+    if header_comment:
+        # comment lines in the header, one of them containing '#'
+        text = text.replace("#OFFSET:", "// synced against take #2 of the master\n#OFFSET:").replace("#BPMS:", "// tempo #1: see notes\n#BPMS:")
     return text, dict(off=off, Ls=Ls, sstart=ss, slen=sl)
 
 
@@ -176,10 +182,10 @@ def check_header(ctx, label, sms, d, vars_):
         ctx.check(label + ".header[#SELECTABLE]", sms.selectable == (h["#SELECTABLE"] == "YES"))
 
 
-def ob_read(charts, bpm_set, ctx, stops_tag="#STOPS:;\n", selectable="YES", comments=False, as_lines=False):
+def ob_read(charts, bpm_set, ctx, stops_tag="#STOPS:;\n", selectable="YES", comments=False, as_lines=False, header_comment=False):
     from reamber.sm import SMMapSet
 
-    text, vars_ = build(ctx, charts, bpm_set, stops_tag=stops_tag, selectable=selectable, comments=comments)
+    text, vars_ = build(ctx, charts, bpm_set, stops_tag=stops_tag, selectable=selectable, comments=comments, header_comment=header_comment)
     sms = SMMapSet.read(text.split("\n") if as_lines else text)
     d = ref.parse(ctx, text)
     ctx.check("reference.well-formed-input", all(not c["ill_formed"] for c in d["charts"]), note="%s" % [c["ill_formed"] for c in d["charts"]])
@@ -213,6 +219,11 @@ def obligations(tier, seed):
     one = [(4, "hold-across-measures", "d", "Hard", 9)]
     obs.append(Obligation("C02/read/no-stops-tag", partial(ob_read, one, "mid-measure", stops_tag=""), bound="file without any #STOPS tag"))
     obs.append(Obligation("C02/read/comments-and-blank-lines", partial(ob_read, one, "mid-measure", comments=True), bound="comment line and blank line between rows"))
+    obs.append(Obligation("C02/read/header-comments-containing-#", partial(ob_read, one, "mid-measure", header_comment=True), bound="comment lines containing '#' before #OFFSET and #BPMS"))
+    for width, ctype in ((8, "dance-couple"), (8, "dance-routine"), (5, "pump-single"), (10, "pump-double"), (6, "pump-halfdouble")):
+        for pn, bs in (("taps", "mid-measure"), ("roll+hold", "one"), ("mixed-symbols", "measure-line")) if not quick else (("mixed-symbols", "mid-measure"), ("roll+hold", "one")):
+            obs.append(Obligation("C02/read/%s/%s/bpms=%s" % (ctype, pn, bs), partial(ob_read, [((width, ctype), pn, "d", "Edit", 3)], bs),
+                                  bound="chart type %s with %d columns, pattern %s, #BPMS %s" % (ctype, width, pn, BPM_SETS[bs])))
     obs.append(Obligation("C02/read/as-line-list", partial(ob_read, one, "measure-line", as_lines=True), bound="SMMapSet.read given a list of lines"))
     obs.append(Obligation("C02/read/selectable-no", partial(ob_read, one, "one", selectable="NO"), bound="#SELECTABLE:NO"))
     return obs
